@@ -36,10 +36,11 @@ Lemma range_bounds_errs_b r lo hi : snd (range_bounds r lo hi) = [] <-> srange_o
 Proof.
   destruct r as [s e m]. unfold range_bounds, srange_ok_b, as_int32. cbn [sr_start sr_end sr_max].
   destruct m, e as [e|]; cbn [orb];
-    repeat match goal with
-           | |- context [Z.ltb ?a ?b] => destruct (Z.ltb_spec a b)
-           | |- context [Z.leb ?a ?b] => destruct (Z.leb_spec a b)
-           end; cbn; split; intros Hx; try reflexivity; try discriminate Hx; try lia.
+    repeat (match goal with
+            | |- context [Z.ltb ?a ?b] => destruct (Z.ltb_spec a b)
+            | |- context [Z.leb ?a ?b] => destruct (Z.leb_spec a b)
+            end; cbn);
+    split; intros Hx; try reflexivity; try discriminate Hx; try lia.
 Qed.
 
 Lemma range_bounds_value r lo hi : srange_ok lo hi r -> fst (range_bounds r lo hi) = srange_bounds hi r.
@@ -47,9 +48,10 @@ Proof.
   destruct r as [s e m]. unfold range_bounds, srange_ok, srange_bounds, as_int32. cbn [sr_start sr_end sr_max].
   intros [Hs Hr].
   destruct m, e as [e|]; cbn [orb];
-    repeat match goal with
-           | |- context [Z.ltb ?a ?b] => destruct (Z.ltb_spec a b)
-           end; cbn; try reflexivity; try lia; destruct Hr as [Hr|Hr]; try discriminate Hr; try lia.
+    repeat (match goal with
+            | |- context [Z.ltb ?a ?b] => destruct (Z.ltb_spec a b)
+            end; cbn);
+    try reflexivity; try lia; destruct Hr as [Hr|Hr]; try discriminate Hr; try lia.
 Qed.
 
 Theorem range_bounds_iff_lemma : forall r lo hi,
@@ -216,19 +218,22 @@ Definition alias_of (l : list oval) : alias_opt :=
 
 Lemma alias_loop_spec allow : forall vs vals has,
   Forall (fun p => snd p <> []) vals -> Forall (fun p => fst p <> []) vs ->
-  let '(es, h) := alias_loop allow vals vs has in
-  (es = [] <-> (allow = true \/ (NoDup (map snd vs) /\ forall p, In p vs -> ~ In (snd p) (map fst vals)))) /\
-  (h = true <-> (has = true \/ (allow = true /\ ~ (NoDup (map snd vs) /\ forall p, In p vs -> ~ In (snd p) (map fst vals))))).
+  (fst (alias_loop allow vals vs has) = [] <->
+     (allow = true \/ (NoDup (map snd vs) /\ forall p, In p vs -> ~ In (snd p) (map fst vals)))) /\
+  (snd (alias_loop allow vals vs has) = true <->
+     (has = true \/ (allow = true /\ ~ (NoDup (map snd vs) /\ forall p, In p vs -> ~ In (snd p) (map fst vals))))).
 Proof.
-  induction vs as [|[nm num] r IH]; intros vals has Hvals Hvs; cbn [alias_loop map].
+  induction vs as [|[nm num] r IH]; intros vals has Hvals Hvs; cbn [alias_loop map fst snd].
   - split.
     + split; [intros _; destruct allow; [now left|right; split; [constructor|intros p []]]|reflexivity].
     + split; [intros ->; now left|intros [H|[_ H]]; [assumption|exfalso; apply H; split; [constructor|intros p []]]].
   - inversion Hvs as [|? ? Hnm Hr]; subst. cbn in Hnm.
     specialize (IH ((num, nm) :: vals) (has || nonempty (assocZ num vals) && allow)).
+    unfold name in *.
     destruct (alias_loop allow ((num, nm) :: vals) r (has || nonempty (assocZ num vals) && allow)) as [es h].
+    cbn [fst snd] in IH |- *.
     destruct IH as [IH1 IH2]; [constructor; assumption|assumption|].
-    pose proof (assocZ_nonempty num vals Hvals) as Hdup. cbn [snd fst] in *.
+    pose proof (assocZ_nonempty num vals Hvals) as Hdup. cbn [map fst] in IH1, IH2.
     set (P := NoDup (map snd r) /\ (forall p, In p r -> ~ In (snd p) (num :: map fst vals))) in *.
     set (Q := NoDup (num :: map snd r) /\ (forall p, In p ((nm, num) :: r) -> ~ In (snd p) (map fst vals))).
     assert (HPQ : Q <-> (~ In num (map fst vals) /\ P)).
@@ -297,7 +302,9 @@ Proof.
             end) as [allow ealias].
   destruct Hal as [Hallow Healias].
   pose proof (alias_loop_spec allow (de_values e) [] false (Forall_nil _) Hnames) as Hloop.
-  destruct (alias_loop allow [] (de_values e) false) as [edup has]. destruct Hloop as [Hd Hh].
+  unfold name in *.
+  revert Hloop. destruct (alias_loop allow (@nil (Z * list N)) (de_values e) false) as [edup has]. intros Hloop.
+  cbn [fst snd] in Hloop. destruct Hloop as [Hd Hh].
   rewrite !app_nil_iff, !cond_nil, invalid_names_nil, enum_value_loop_nil, Hd.
   pose proof (enum_ranges_overlap_sorted_iff_lemma EEnumReservedOverlap (de_rsv e) Hwf) as Hr.
   assert (Hr' : overlap_errs Z.leb (sort_rngs (de_rsv e)) EEnumReservedOverlap = [] <-> ~ two_share in_cl (de_rsv e)).
@@ -317,15 +324,15 @@ Proof.
     + split; [assumption|]. intros n Hn Hin. apply in_map_iff in Hn as (p & <- & Hp).
       rewrite Forall_forall in H8. destruct (H8 p Hp) as [_ Hb].
       destruct (enum_number_in_range_iff_lemma (de_rsv e) (snd p) Hwf H6) as (b & Hb' & Hiff).
-      rewrite Hb in Hb'. injection Hb' as <-. apply Hiff in Hin. discriminate.
+      pose proof (eq_trans (eq_sym Hb) Hb') as Heq. injection Heq as <-. apply Hiff in Hin. discriminate.
     + intros n Hn Hin. apply in_map_iff in Hn as (p & <- & Hp). rewrite Forall_forall in H8.
       destruct (H8 p Hp) as [Ha _]. apply mem_name_false in Ha. contradiction.
   - intros (H1 & H2 & _ & H4 & H5 & H6 & (H7 & H7') & H8 & H9).
     assert (Hal_dec : al = AliasTrue \/ al <> AliasTrue) by (destruct al; [right|left|right|right]; congruence).
     repeat split.
-    + destruct (de_values e); [congruence|reflexivity].
+    + destruct (de_values e) eqn:Ev; [exfalso; now apply H1|reflexivity].
     + now apply Healias.
-    + destruct syn; try reflexivity. destruct (de_values e) as [|[? n] ?]; [reflexivity|]. rewrite (H4 eq_refl). reflexivity.
+    + destruct syn; try reflexivity. revert H4. destruct (de_values e) as [|[? n] ?]; [reflexivity|]. intros H4. rewrite (H4 eq_refl). reflexivity.
     + destruct Hal_dec as [Ht|Hn]; [left; now apply Hallow|right; now apply H6].
     + destruct allow; [|reflexivity]. cbn. destruct has; [reflexivity|]. exfalso.
       assert (Ht : al = AliasTrue) by now apply Hallow. specialize (H5 Ht).
@@ -336,7 +343,7 @@ Proof.
     + rewrite Forall_forall. intros p Hp. split.
       * apply mem_name_false. apply H9. now apply in_map.
       * destruct (enum_number_in_range_iff_lemma (de_rsv e) (snd p) Hwf H7) as (b & Hb' & Hiff).
-        rewrite Hb'. destruct b; [|reflexivity]. exfalso. apply (H7' (snd p)); [now apply in_map|]. now apply Hiff.
+        refine (eq_trans Hb' _). destruct b; [|reflexivity]. exfalso. apply (H7' (snd p)); [now apply in_map|]. now apply Hiff.
 Qed.
 
 (* ------------------------------------------------------------------------------------------ *)
